@@ -908,8 +908,11 @@ func (s *stack) resync(pre shimmodel.State, st SStep, o *sim.Outcome, i int, tag
 		if realSet[id.Blob] || (id.Expiry != 0 && now >= id.Expiry) {
 			continue
 		}
+		// (an identity with the blob of an in-memory certificate: when the shim drops that certificate - as an orphan,
+		// say - it asks the agent to remove the blob as well; another client may have added it there meanwhile)
 		explained := st.Op == "removeall" || (st.Op == "remove" && st.Role == id.Blob) ||
-			(id.IsCert && shimmodel.Validity(id.VA, id.VB, now) != shimmodel.Valid)
+			(id.IsCert && shimmodel.Validity(id.VA, id.VB, now) != shimmodel.Valid) ||
+			(pre.MemHas(id.Blob) && s.actMayPurge[id.Blob])
 		if !explained {
 			o.Fail("C10.fault_damage", "fault_removed", i, "%s: after a faulted call the upstream lost %s", tag, id.Blob)
 		}
